@@ -55,3 +55,11 @@ Theorem format_constants_match_spec :
   WebpGen.Tables.lossless_CodeLengthRepeatOffsets = [3; 3; 11] /\
   WebpGen.Vp8lRoles.lossless_role_base_alphabet_sizes = [256 + 24; 256; 256; 256; 40].
 Proof. vm_compute. repeat split. Qed.
+
+(** Constants the implementation models of the lookup tables use ([Vp8lLut]: root size 8 for the
+    five codes of a group; [Vp8lPacked]: 64 packed slots indexed by 6 window bits, eligibility
+    "sum of the maximal lengths < 6", root-table mask 255), as the code has them. *)
+Theorem table_constants_match_models :
+  WebpGen.Consts.lossless_HuffmanTableBits = 8 /\ WebpGen.Consts.lossless_HuffmanTableMask = 2 ^ 8 - 1 /\
+  WebpGen.Consts.lossless_HuffmanPackedBits = 6 /\ WebpGen.Consts.lossless_HuffmanPackedTableSize = 2 ^ 6.
+Proof. vm_compute. repeat split. Qed.
